@@ -613,9 +613,6 @@ func (s *State) assumeWellTyped(v Value) {
 	case *types.Slice:
 		// 0<=off, 0<=len<=cap
 		s.assume(And(Ge(v.L[1], I(0)), Ge(v.L[2], I(0)), Le(v.L[2], v.L[3])))
-		// a slice with capacity points into an array (only the nil slice and empty slices made
-		// from it have a nil base pointer)
-		s.assume(Implies(Gt(v.L[3], I(0)), Not(Eq(v.L[0], I(0)))))
 	}
 	if isString(v.Typ) {
 		s.assume(And(Ge(v.L[1], I(0)), Ge(v.L[2], I(0))))
